@@ -700,10 +700,16 @@ func (c *c12Ctx) partHonest(thorough bool) {
 		}
 		// the hash refuses the message
 		good := c.sign(k, c.mimcMsg(1), "mimc", false)
+		// ... also against a signature on the EMPTY message: a verifier that drops the refused message hashes exactly what
+		// the signer of the empty message hashed
+		goodEmpty := c.sign(k, []byte{}, "mimc", false)
 		for _, bm := range c.badMimcMsgs() {
 			c.sign(k, bm, "mimc", false)
 			if good != nil {
 				c.verify(k.pub, good, bm, "mimc", false, "badmimc")
+			}
+			if goodEmpty != nil {
+				c.verify(k.pub, goodEmpty, bm, "mimc", false, "badmimc-empty")
 			}
 		}
 		if c.in.scheme == "eddsa" {
